@@ -73,6 +73,12 @@ def record(run, tier, rng):
             raise common.MachineryError("trace bookkeeping inconsistent in trace %d" % tid)
         run.violation({"kind": "preemph_trace_rejected_" + clause, "clause": clause, "event": line, "trace": byid[tid]})
     run.sample(traces[3])
+    if not rejected:
+        victim = next(t for t in traces if t["events"] and t["events"][0]["heap"] and t["events"][0]["heap"][-1]["vals"])
+
+        def corrupt(t):
+            t["events"][0]["heap"][-1]["vals"][0] += 1
+        common.assert_binding_live(run, "TracePreOps", "TracePreOps.cfg", victim, corrupt, "one returned sample changed")
 
 
 def exact_float(run, tier, nprng):
